@@ -124,15 +124,28 @@ Definition check_incoming_mpp_part (parts : list part) (pf : fields) (new : part
       Some (sort_parts (map (set_tvr amount) parts1), true)
     else Some (parts ++ [new], false).
 
+(** What [auth] of [Recv] stands for. A keysend HTLC ([keysend = Some m], [m]: its preimage hashes
+    to the HTLC's payment hash) is authentic iff the preimage matches — the payment secret it may
+    carry as well is not looked at ([has_recipient_created_payment_secret = false]); any other HTLC
+    iff [inbound_payment::verify] accepts its payment secret. *)
+Definition recv_auth (keysend : option bool) (verify_ok : bool) : bool :=
+  match keysend with Some hash_matches => hash_matches | None => verify_ok end.
+
+(** the two numeric checks of [inbound_payment::verify] on a secret created at time [t0] with
+    [invoice_expiry_delta_secs = delta] and minimum amount [min_amt], evaluated at time [now] (the
+    node's highest seen block time, as passed at the call site) *)
+Definition verify_numeric_ok (total min_amt t0 delta now : Z) : bool :=
+  negb (verify_amount_too_low total min_amt) && negb (verify_expired (calculate_absolute_expiry t0 delta) now).
+
 (** a received final-hop HTLC: onion-level checks, [verify] result, [handle_claimable_htlc] *)
 Definition recv (s : state) (hash pid onion_cltv cltv value intended : Z) (fl : fields) (purpose : Z)
     (auth : bool) (min_cltv : option Z) (skim : option Z) (underpay : bool) : state * list out :=
   let h := height s in
   if cltv <? onion_cltv then (s, [OFailPart pid F_FinalIncorrectCLTVExpiry])
-  else if cltv <=? h + HTLC_FAIL_BACK_BUFFER + 1 then (s, [OFailPart pid F_PaymentClaimBuffer])
+  else if recv_cltv_too_soon cltv (recv_current_height h) then (s, [OFailPart pid F_PaymentClaimBuffer])
   else if final_hop_underpaid underpay intended value skim then (s, [OFailPart pid F_FinalIncorrectHTLCAmount])
   else if negb auth then (s, [OFailPart pid F_IncorrectPaymentDetails])
-  else if match min_cltv with Some d => cltv <? h + d | None => false end
+  else if match min_cltv with Some d => min_final_cltv_too_soon cltv (min_final_cltv_expected_height h d) | None => false end
        then (s, [OFailPart pid F_IncorrectPaymentDetails])
   else
     let new := {| pt_id := pid; pt_cltv := cltv; pt_value := value; pt_intended := intended; pt_ticks := 0;
